@@ -726,7 +726,9 @@ class HTTPConnectionPool(ConnectionPool, RequestMethods):
         if url.startswith("/"):
             url = to_str(_encode_target(url))
         else:
-            url = to_str(parsed_url.url)
+            # Like the origin-form, the absolute-form target carries neither
+            # the userinfo (RFC 9110, Section 4.2.4) nor the fragment.
+            url = to_str(parsed_url._replace(auth=None, fragment=None).url)
 
         conn = None
 
